@@ -161,6 +161,11 @@ fn judge(rec: &mut Rec, kind: Kind, i: i128, off: i32, info: &PatInfo) {
             let culprit = culprit_symbol(info, &v_summary(y, m, hour, off));
             rec.violation(format!("C12|{}|parse∘format|rejected|{}{}{}", kind_name(kind), what, lit, culprit), || wit(json!({"formatted": s, "error": e})));
         }
+        Ok((_, Ok(pr))) if !canonical(&pr.lv) => {
+            // the parsed value does not read like an independently built value of its own instant:
+            // its getters/format cannot be used as evidence here (another property's defect)
+            rec.bin(SKIP_EXPECTED);
+        }
         Ok((s, Ok(pr))) => {
             if pr.reformatted != s {
                 let culprit = culprit_symbol(info, &v_summary(y, m, hour, off));
@@ -260,6 +265,21 @@ fn judge(rec: &mut Rec, kind: Kind, i: i128, off: i32, info: &PatInfo) {
     }
     if rec.want_sample() {
         rec.sample(|| wit(json!({"formatted": trap(|| lib_format(kind, i, off, p)).ok()})));
+    }
+}
+
+/// Does the parsed value read exactly like an independently built value of its own instant/day/time?
+fn canonical(lv: &LibVal) -> bool {
+    match lv {
+        LibVal::Dt(x) => read_checked(x).is_some(),
+        LibVal::D(x) => match trap(|| x.timestamp()) {
+            Ok(ts) => matches!(diff_date(x, ts.div_euclid(86_400) + cal::DAYS_TO_1970), Ok(DateDiff::Same)),
+            Err(_) => false,
+        },
+        LibVal::T(x) => match trap(|| (x.as_nanos(), time_offset_secs(x))) {
+            Ok((n, Some(o))) if n < 86_400_000_000_000 => matches!(diff_time(x, n, o), Ok(TDiff::Same)),
+            _ => false,
+        },
     }
 }
 
